@@ -829,6 +829,32 @@ class SymArray:
     def __rtruediv__(self, o):
         return self._ew(o, lambda a, b: scalar_div(*_num_pair(a, b)), "float", swap=True)
 
+    def _int_divisor(self, o, what):
+        """integer floor division / remainder of an integer array by a positive scalar (Python's and z3's
+        integer division agree for positive divisors; anything else is left undecided)"""
+        if self._dtype not in ("int", "bool"):
+            raise Undecided(f"{what} of a {self._dtype} array")
+        if isinstance(o, SymArray):
+            raise Undecided(f"{what} by an array")
+        d = lift(o)
+        if not z3.is_int(d):
+            raise Undecided(f"{what} by a non-integer")
+        c = conc(d)
+        if c is not None:
+            if c <= 0:
+                raise Undecided(f"{what} by a non-positive constant")
+        else:
+            cur().prove_then_assume(f"{what}-by-a-positive-number", d > 0, "safety")
+        return d
+
+    def __floordiv__(self, o):
+        d = self._int_divisor(o, "floor-division")
+        return elementwise((self,), lambda a: (_to_int(a) if z3.is_bool(a) else a) / d, "int")
+
+    def __mod__(self, o):
+        d = self._int_divisor(o, "remainder")
+        return elementwise((self,), lambda a: (_to_int(a) if z3.is_bool(a) else a) % d, "int")
+
     def __neg__(self):
         return elementwise((self,), lambda a: -(_to_int(a) if z3.is_bool(a) else a))
 
